@@ -380,6 +380,26 @@ theorem stable_of_same_statements (a b : Prog) (h : ∀ s, s ∈ a ↔ s ∈ b) 
   · rintro ⟨x, y⟩; exact ⟨x, fun H hs hp hM => y H hs hp ((hm H T).mpr hM)⟩
   · rintro ⟨x, y⟩; exact ⟨x, fun H hs hp hM => y H hs hp ((hm H T).mp hM)⟩
 
+/-- the order (and multiplicity) of the literals of a rule body is immaterial -/
+theorem stmSat_same_body (l c l' c' : Nat) (h : Head) (b b' : List BLit) (hb : ∀ x, x ∈ b ↔ x ∈ b') (H T : Interp) :
+    stmSat (stdParams P) H T (.rule l c h b) ↔ stmSat (stdParams P) H T (.rule l' c' h b') := by
+  have hG : (fun v => v ∈ ruleGlobals (stdParams P) h b) = (fun v => v ∈ ruleGlobals (stdParams P) h b') := by
+    funext v
+    apply propext
+    simp only [ruleGlobals, bodyGlobals, List.mem_append, List.mem_flatMap]
+    constructor
+    · rintro (h1 | ⟨x, hx, hv⟩)
+      · exact Or.inl h1
+      · exact Or.inr ⟨x, (hb x).mp hx, hv⟩
+    · rintro (h1 | ⟨x, hx, hv⟩)
+      · exact Or.inl h1
+      · exact Or.inr ⟨x, (hb x).mpr hx, hv⟩
+  have hS : ∀ (G : String → Prop) (e : Env) (W W' : Interp), bodySat P G e W W' b ↔ bodySat P G e W W' b' := by
+    intro G e W W'
+    simp only [bodySat]
+    exact ⟨fun x y hy => x y ((hb y).mpr hy), fun x y hy => x y ((hb y).mp hy)⟩
+  simp only [stmSat, stdParams_headSat, stdParams_toParams, hG, hS]
+
 /-! ## the executable check -/
 
 def placeOf (line col : Nat) (head : Head) (body rest : List BLit) (pairs : List (String × String)) : Place :=
